@@ -14,12 +14,12 @@ Theorem dag_steady_state_fixed_point : forall N prog calib, length calib = N -> 
   let ss := ss_eval prog calib in
   ss_consistent ss prog /\
   ss_eval prog ss = ss /\
-  forall maxit T U Tg shocks tol,
+  forall force maxit T U Tg shocks tol,
     (forall d, In d shocks -> (fst d < N)%nat) -> (forall u, In u U -> (u < N)%nat) ->
     (forall d v, In d shocks -> In v (snd d) -> v = g0) -> (g0 < tol)%Qc ->
     let U0 := map (fun _ => repeat g0 (Z.to_nat T)) U in
-    let res := nl_results N T ss ss prog U shocks U0 in
-    nl_solve (S maxit) N T ss ss prog U Tg shocks tol = Converged U0 res /\ forall o v, In v (dev_of ss res o) -> v = g0.
+    let res := nl_results force N T ss ss prog U shocks U0 in
+    nl_solve force (S maxit) N T ss ss prog U Tg shocks tol = Converged U0 res /\ forall o v, In v (dev_of ss res o) -> v = g0.
 Proof.
   intros N prog calib Hl Hwfb ss. pose proof (wf_progb_sound N prog Hwfb) as Hwf.
   assert (Hc : ss_consistent ss prog) by (apply (ss_eval_consistent_lemma N); assumption).
@@ -27,7 +27,7 @@ Proof.
   assert (HlN : length ss = N).
   { unfold ss. destruct (ss_eval_untouched N prog calib Hl Hlt) as [L _]. exact L. }
   split; [exact Hc|]. split; [apply (ss_eval_idempotent_lemma N); assumption|].
-  intros maxit T U Tg shocks tol Hsh HU Hz Htol.
+  intros force maxit T U Tg shocks tol Hsh HU Hz Htol.
   apply nl_zero_shock_lemma; try assumption.
   intros b oe Hb Hoe. apply (Hlt b); [exact Hb | apply in_map; exact Hoe].
 Qed.
